@@ -2,6 +2,7 @@ package sym
 
 import (
 	"crypto/sha256"
+	"os"
 	"encoding/hex"
 	"fmt"
 	"math/big"
@@ -119,32 +120,208 @@ func (ex *Exec) streamFromModel(s *State, model map[int]*big.Int) map[string]int
 			}
 		}
 	}
-	for iter := 0; iter <= len(s.hashes)+1 && len(lifts) > 0; iter++ {
-		changed := false
-		memo := map[int]*big.Int{}
-		for _, l := range lifts {
-			h := s.hashes[l.app]
-			real := ex.tt.Eval(h.App, env, realUF, memo)
-			if l.wide != nil {
-				if env[l.wide.Name].Cmp(real) != 0 {
-					env[l.wide.Name] = real
-					changed = true
-				}
-				continue
+	// structural lifts: the path condition itself equates 32 input bytes (or a wide input
+	// variable) with the bytes of a hash application -- these are right by construction and
+	// do not depend on the model's choice of digest values
+	var structural []lift
+	{
+		appIdx := map[int]int{}
+		for i, h := range s.hashes {
+			appIdx[h.App.ID] = i
+		}
+		inputVar := map[string]bool{}
+		for _, in := range s.inputs {
+			if in.Wide != nil {
+				inputVar[in.Wide.Name] = true
 			}
-			rb := make([]byte, 32)
-			b := real.Bytes()
-			copy(rb[32-len(b):], b)
-			for k, t := range l.vars {
-				nv := big.NewInt(int64(rb[k]))
-				if env[t.Name].Cmp(nv) != 0 {
-					env[t.Name] = nv
-					changed = true
+			for _, t := range in.Terms {
+				if t != nil && t.Op == OpVar {
+					inputVar[t.Name] = true
 				}
 			}
 		}
-		if !changed {
-			break
+		win := map[int]map[int]*Term{} // app -> byte index (0 = most significant) -> var
+		var visit func(t *Term)
+		visit = func(t *Term) {
+			switch t.Op {
+			case OpAnd:
+				for _, a := range t.Args {
+					visit(a)
+				}
+			case OpEq:
+				a, b := t.Args[0], t.Args[1]
+				for k := 0; k < 2; k++ {
+					if a.Op == OpVar && inputVar[a.Name] {
+						if j, ok := appIdx[b.ID]; ok && a.W == 256 {
+							structural = append(structural, lift{wide: a, app: j})
+						}
+						if b.Op == OpExtract && a.W == 8 && b.B%8 == 0 {
+							if j, ok := appIdx[b.Args[0].ID]; ok {
+								if win[j] == nil {
+									win[j] = map[int]*Term{}
+								}
+								win[j][31-b.B/8] = a
+							}
+						}
+					}
+					a, b = b, a
+				}
+			}
+		}
+		for _, t := range s.pc {
+			if !s.axiomIDs[t.ID] {
+				visit(t)
+			}
+		}
+		for j, m := range win {
+			if len(m) != 32 {
+				continue
+			}
+			vs := make([]*Term, 32)
+			for k := 0; k < 32; k++ {
+				vs[k] = m[k]
+			}
+			structural = append(structural, lift{vars: vs, app: j})
+		}
+	}
+	// Candidate lift sets: all matches; all matches whose window is not a constant byte
+	// pattern (a model is free to give a hash application the value 00..00, which then
+	// "matches" every run of zero bytes in an input buffer); none. The first candidate under
+	// which the path condition evaluates to true with REAL SHA-256 is used.
+	base := map[string]*big.Int{}
+	for k, v := range env {
+		base[k] = v
+	}
+	apply := func(ls []lift) map[string]*big.Int {
+		e := map[string]*big.Int{}
+		for k, v := range base {
+			e[k] = v
+		}
+		for iter := 0; iter <= len(s.hashes)+1 && len(ls) > 0; iter++ {
+			changed := false
+			memo := map[int]*big.Int{}
+			for _, l := range ls {
+				h := s.hashes[l.app]
+				real := ex.tt.Eval(h.App, e, realUF, memo)
+				if l.wide != nil {
+					if e[l.wide.Name].Cmp(real) != 0 {
+						e[l.wide.Name] = real
+						changed = true
+					}
+					continue
+				}
+				rb := make([]byte, 32)
+				b := real.Bytes()
+				copy(rb[32-len(b):], b)
+				for k, t := range l.vars {
+					nv := big.NewInt(int64(rb[k]))
+					if e[t.Name].Cmp(nv) != 0 {
+						e[t.Name] = nv
+						changed = true
+					}
+				}
+			}
+			if !changed {
+				break
+			}
+		}
+		return e
+	}
+	holds := func(e map[string]*big.Int) bool {
+		memo := map[int]*big.Int{}
+		for _, t := range s.pc {
+			if s.axiomIDs[t.ID] {
+				continue
+			}
+			ok := true
+			func() {
+				defer func() {
+					if recover() != nil {
+						ok = true // terms the evaluator does not support (FP): not decisive
+					}
+				}()
+				ok = ex.tt.Eval(t, e, realUF, memo).Sign() != 0
+			}()
+			if !ok {
+				return false
+			}
+		}
+		return true
+	}
+	var nonConst []lift
+	for _, l := range lifts {
+		if l.wide != nil {
+			nonConst = append(nonConst, l)
+			continue
+		}
+		same := true
+		for _, t := range l.vars[1:] {
+			if base[t.Name].Cmp(base[l.vars[0].Name]) != 0 {
+				same = false
+			}
+		}
+		if !same {
+			nonConst = append(nonConst, l)
+		}
+	}
+	// a lift is certainly right when the path condition FORCES the window to equal the hash
+	// application (one solver query per candidate); coincidental matches are not lifted
+	var forced []lift
+	if (len(lifts) > 0 || len(structural) > 0) && ex.Concrete == nil {
+		for _, l := range lifts {
+			if len(lifts) > 64 {
+				break
+			}
+			var w *Term
+			if l.wide != nil {
+				w = l.wide
+			} else {
+				w = ex.tt.Concat(append([]*Term(nil), l.vars...)...)
+			}
+			ne := ex.tt.Not(ex.tt.Eq(w, s.hashes[l.app].App))
+			ex.sol.setTimeout(ex.sol.TimeoutMs)
+			r, _ := ex.sol.check(s.pc, []*Term{ne}, nil)
+			if os.Getenv("SYMGO_LIFTDBG") != "" {
+				fmt.Printf("LIFTDBG forced? app=%d t%d wide=%v w=%.60s -> %v\n", l.app, s.hashes[l.app].App.ID, l.wide != nil, w.String(), r)
+			}
+			if r == Unsat {
+				forced = append(forced, l)
+			}
+		}
+		forced = append(forced, structural...)
+		e0 := apply(forced)
+		h0 := holds(e0)
+		if os.Getenv("SYMGO_LIFTDBG") != "" {
+			fmt.Printf("LIFTDBG candidates=%d forced=%d holdsForced=%v holdsAll=%v holdsNone=%v\n", len(lifts), len(forced), h0, holds(apply(lifts)), holds(apply(nil)))
+			if !h0 {
+				memo := map[int]*big.Int{}
+				for i, t := range s.pc {
+					if s.axiomIDs[t.ID] {
+						continue
+					}
+					func() {
+						defer func() { recover() }()
+						if ex.tt.Eval(t, e0, realUF, memo).Sign() == 0 {
+							fmt.Printf("LIFTDBG false pc[%d] %.300s\n", i, t.String())
+							if len(t.Args) > 0 && len(t.Args[0].Args) > 0 && len(t.Args[0].Args[0].Args) > 0 {
+								c := t.Args[0].Args[0].Args[0]
+								fmt.Printf("LIFTDBG   cond %.1500s\n", c.String())
+							}
+						}
+					}()
+				}
+			}
+		}
+		if h0 {
+			lifts = forced
+		}
+	}
+	env = apply(lifts)
+	if len(lifts) > 0 && !holds(env) {
+		if e2 := apply(nonConst); holds(e2) {
+			env = e2
+		} else if e3 := apply(nil); holds(e3) {
+			env = e3
 		}
 	}
 	stream := map[string]interface{}{}
